@@ -4,6 +4,7 @@
   Model: CRModel/TrafficLight.lean (mirror of traffic_light.py:165-178, 367-368).
 -/
 import CRProofs.TrafficLight
+import CRModel.TrafficLightHist
 import Mathlib.Tactic.Ring
 import Mathlib.Tactic.Linarith
 namespace CR.TL
@@ -158,3 +159,124 @@ example : stateAt [(0, 2), (2, 3), (1, 1)] 4 (-3) = .ok 1 := by decide
 example : stateAt [(7, 5)] 0 123 = .ok 7 := by decide
 
 end CR.TL
+
+/-! ## Histories on one cycle OBJECT (generator audit): the memoised table must not show through
+
+  `CRModel/TrafficLightHist.lean` models the object with its `_cycle_init_timesteps` memo and every public operation that
+  can reach what `get_state_at_time_step` reads.  The theorems say when the answers along a history are those of the cycle
+  DEFINITION the object has at the moment of each query (`specRun`, which knows no memo).  -/
+namespace CR.TL.Hist
+
+theorem stateAtTable_init (es : List Elem) (off t : Int) :
+    stateAtTable (initSteps es off) es off t = stateAt es off t := rfl
+
+theorem fillWith_coherent (v : Bool) (o : Obj) (h : Coherent o) : fillWith v o = initSteps o.es o.off := by
+  unfold fillWith
+  cases v with
+  | true => simp
+  | false =>
+    rcases h with h | h <;> simp [h]
+
+/-- one step: same answers as the definition, same definition afterwards, memo still coherent -/
+theorem step_follows (v : Bool) (o : Obj) (op : Op) (h : Coherent o) (hs : SafeAt o op) :
+    (stepWith v o op).1 = specAns o.toDef op ∧
+    (stepWith v o op).2.toDef = o.toDef.step op ∧ Coherent (stepWith v o op).2 := by
+  cases op with
+  | query ts =>
+    by_cases hts : ts = []
+    · simp [stepWith, hts, Obj.toDef, Def.step, specAns, h]
+    · simp only [stepWith, hts, if_false, fillWith_coherent v o h]
+      refine ⟨?_, rfl, Or.inr rfl⟩
+      apply List.map_congr_left
+      intro t _
+      exact stateAtTable_init _ _ _
+  | readTable => exact ⟨rfl, rfl, Or.inr (by simp [stepWith, fillWith_coherent v o h])⟩
+  | setOff off => exact ⟨rfl, rfl, Or.inl rfl⟩
+  | setEs es cls => exact ⟨rfl, rfl, Or.inl rfl⟩
+  | elDur i d => exact ⟨rfl, rfl, Or.inl hs⟩
+  | elState i s =>
+    refine ⟨rfl, rfl, ?_⟩
+    rcases h with h | h
+    · exact Or.inl h
+    · right
+      simp only [stepWith, h]
+      -- the durations are untouched by a state edit
+      have hd : ∀ (es : List Elem) (cls : List Nat) (i s), durations (editAt es cls i (fun e => (s, e.2))) = durations es := by
+        intro es cls i s
+        unfold editAt
+        cases cls[i]? with
+        | none => rfl
+        | some c =>
+          simp only [durations]
+          apply List.ext_getElem
+          · simp
+          · intro n h1 h2
+            simp only [List.getElem_map, List.getElem_mapIdx]
+            split <;> rfl
+      simp [initSteps, hd]
+  | appendInPlace e c => exact ⟨rfl, rfl, Or.inl hs⟩
+  | fresh es cls off => exact ⟨rfl, rfl, Or.inl rfl⟩
+  | keep => exact ⟨rfl, rfl, h⟩
+
+/-- C17 over histories, code as it is (`v = validates = false`) and code that validates alike: from a coherent object, along
+    every history whose in-place edits of durations / of the element list happen only while no table is memoised, every
+    `get_state_at_time_step` answers what the cycle definition of that moment gives.  Setters (`time_offset =`,
+    `cycle_elements =` with a new or the same list), in-place STATE edits, aliasing (one element object at several positions),
+    replacing a light's cycle, reads of `cycle_init_timesteps`, copies and all no-effect operations are unrestricted. -/
+theorem C17_hist_follows_definition (v : Bool) : ∀ (ops : List Op) (o : Obj), Coherent o → SafeRun v o ops →
+    runWith v o ops = specRun o.toDef ops
+  | [], _, _, _ => rfl
+  | op :: ops, o, h, hs => by
+    obtain ⟨h1, h2, h3⟩ := step_follows v o op h hs.1
+    simp only [runWith, specRun]
+    rw [C17_hist_follows_definition v ops _ h3 hs.2, h2, h1]
+
+/-- a freshly constructed cycle is coherent (no memo) -/
+theorem fresh_coherent (es : List Elem) (cls : List Nat) (off : Int) : Coherent (Obj.fresh es cls off) := Or.inl rfl
+
+/-- Code that re-derives a table which no longer matches (`validates = true`, the proposed repair): NO restriction on the
+    history and none on the starting memo. -/
+theorem C17_hist_follows_definition_validating : ∀ (ops : List Op) (o : Obj), runWith true o ops = specRun o.toDef ops
+  | [], _ => rfl
+  | op :: ops, o => by
+    simp only [runWith, specRun]
+    rw [C17_hist_follows_definition_validating ops]
+    cases op with
+    | query ts =>
+      by_cases hts : ts = []
+      · simp [stepWith, hts, Obj.toDef, Def.step, specAns]
+      · simp only [stepWith, hts, if_false, fillWith, if_true]
+        congr 1
+    | _ => rfl
+
+/-- ... and each such answer is the state of the element whose window contains (t - offset) mod total of the CURRENT
+    elements (C17 (a) transported to the object): -/
+theorem C17_hist_query_spec (v : Bool) (o : Obj) (h : Coherent o) (hadm : Admissible o.es) (t : Int) :
+    ∃ s, specAt o.es ((t - o.off) % total o.es) = some s ∧ (stepWith v o (.query [t])).1 = [.ok s] := by
+  obtain ⟨s, h1, h2⟩ := C17_stateAt_eq_spec o.es o.off t hadm
+  refine ⟨s, h1, ?_⟩
+  have := (step_follows v o (.query [t]) h trivial).1
+  rw [this]; simp [specAns, Obj.toDef, h2]
+
+/-- Witness (known finding C17/cycle.get_state_at_time_step/stale-after/element.duration=(held)): WITHOUT validation a
+    duration edited through the element's public setter after a first query is not seen — cycle [RED 2, GREEN 3]
+    queried at 0, `cycle_elements[0].duration = 4`: step 2 still answers GREEN (3), the definition [RED 4, GREEN 3] gives RED (0). -/
+theorem C17_witness_held_duration_stale :
+    runWith false (Obj.fresh [(0, 2), (3, 3)] [0, 1] 0) [.query [0], .elDur 0 4, .query [2]] = [[.ok 0], [], [.ok 3]] ∧
+    specRun ⟨[(0, 2), (3, 3)], [0, 1], 0⟩ [.query [0], .elDur 0 4, .query [2]] = [[.ok 0], [], [.ok 0]] := by decide
+
+/-- Witness (known finding …/stale-after/cycle_elements.append(in place)): `cycle.cycle_elements.append(YELLOW 2)` after a
+    query: step 5 answers RED (wrapped around with the old period 5), the definition [RED 2, GREEN 3, YELLOW 2] gives YELLOW (1). -/
+theorem C17_witness_inplace_append_stale :
+    runWith false (Obj.fresh [(0, 2), (3, 3)] [0, 1] 0) [.query [0], .appendInPlace (1, 2) 2, .query [5]] = [[.ok 0], [], [.ok 0]] ∧
+    specRun ⟨[(0, 2), (3, 3)], [0, 1], 0⟩ [.query [0], .appendInPlace (1, 2) 2, .query [5]] = [[.ok 0], [], [.ok 1]] := by decide
+
+/-- Non-vacuity of `SafeRun`: an unrestricted mix of setters, an in-place edit BEFORE the first query, aliasing and queries. -/
+example : SafeRun false (Obj.fresh [(0, 2), (3, 3), (0, 2)] [0, 1, 0] 4)
+    [.elDur 0 5, .query [1, 2], .setOff 7, .elState 2 4, .query [0], .setEs [(1, 1)] [0], .elDur 0 3, .query [9]] := by
+  simp [SafeRun, SafeAt, stepWith, Obj.fresh]
+
+example : run (Obj.fresh [(0, 2), (3, 3), (0, 2)] [0, 1, 0] 0) [.elDur 2 1, .query [0, 1, 2, 4, 5]]
+    = [[], [.ok 0, .ok 3, .ok 3, .ok 0, .ok 0]] := by decide
+
+end CR.TL.Hist
